@@ -1,6 +1,6 @@
 (* C07 — Base58, Base58Check and bech32 are exact, strict, side-effect-free inverses.
    Only statements; every proof is `exact <lemma proved elsewhere>`. *)
-From BU Require Import Lib.Bytes Lib.Slice Base58.Base58 Base58.Base58Proofs Bech32.Bech32 Bech32.Bech32Proofs Bech32.PurityModel Bech32.Purity Gen.AppendSites.
+From BU Require Import Lib.Bytes Lib.Slice Base58.Base58 Base58.Base58Proofs Bech32.Bech32 Bech32.Bech32Proofs Bech32.PurityModel Bech32.Purity Bech32.ConvertBitsProofs Gen.AppendSites.
 
 (* Decode after Encode is the identity on every byte string *)
 Theorem C07_base58_decode_encode : forall b, Bytes b -> Base58.decode (Base58.encode b) = b.
@@ -68,6 +68,30 @@ Theorem C07_bech32_rejects_foreign_char : forall s c,
   In c s -> (c < 33 \/ 126 < c) -> forall r, Bech32.decode s <> Ok r.
 Proof. exact bech32_rejects_foreign_char. Qed.
 Print Assumptions C07_bech32_rejects_foreign_char.
+
+(* ---------------- ConvertBits ---------------- *)
+(* ConvertBits is exactly bit-list regrouping (flatten to fromBits-bit groups MSB first, re-chunk by toBits; a
+   trailing incomplete group is padded, or — without padding — must be at most 4 zero bits), for every group size *)
+Theorem C07_convert_bits_is_spec : forall data fromBits toBits pad,
+  Bytes data -> convert_bits data fromBits toBits pad = regroup_spec data fromBits toBits pad.
+Proof. exact convert_bits_is_spec. Qed.
+Print Assumptions C07_convert_bits_is_spec.
+
+(* 8 -> 5 (padded) and 5 -> 8 (strict) are mutual inverses *)
+Theorem C07_convert_8_5_inverse : forall d, Bytes d ->
+  exists five, convert_bits d 8 5 true = Ok five /\ Forall (fun v => v < 32) five /\ convert_bits five 5 8 false = Ok d.
+Proof. exact convert_8_5_inverse. Qed.
+Print Assumptions C07_convert_8_5_inverse.
+
+Theorem C07_convert_5_8_canonical : forall five d, Forall (fun v => v < 32) five ->
+  convert_bits five 5 8 false = Ok d -> convert_bits d 8 5 true = Ok five.
+Proof. exact convert_5_8_canonical. Qed.
+Print Assumptions C07_convert_5_8_canonical.
+
+Theorem C07_convert_bits_rejects_range : forall data fromBits toBits pad,
+  fromBits < 1 \/ 8 < fromBits \/ toBits < 1 \/ 8 < toBits -> convert_bits data fromBits toBits pad = Err 8.
+Proof. exact convert_bits_rejects_range. Qed.
+Print Assumptions C07_convert_bits_rejects_range.
 
 (* ---------------- purity ---------------- *)
 (* bech32.Encode leaves every array that existed before the call unchanged, whatever the capacity of `data` *)
